@@ -214,6 +214,11 @@ pub fn mux_phase(prop: &str, sc: &MuxScenario, max_k: u64, r: &mut Rng, st: &mut
         }
         st.absorb_sim(&sim.borrow());
     }
+    if sc.start_pos > (1 << 30) {
+        // a sparse sink that begins beyond 4 GiB is not materialised: muxing only
+        st.inc("scenario.mux_only_beyond_4gib");
+        return None;
+    }
     let img = csim.borrow().disk.to_vec();
     if cres.last().map(|c| c.is_ok()).unwrap_or(false) {
         Some(img)
